@@ -55,7 +55,7 @@ def replay_state(args):
                 # relative to the problem scale; residuals up to ~2e-4 observed): asserted up to 1e-3 here, tightly with CLARABEL below
                 if np.linalg.norm(pred - b) > eps + 1e-3:
                     bad.append(("C08.reproduces-target", w, b.tolist(), pred.tolist(), r))
-                if name in ("number", "var") and eps <= 1e-5:
+                if name in ("number", "var"):
                     try:
                         Xh, _ = est.fit_underdetermined(b[None, :].copy(), underdetermined_opt=opt, l2_eps=eps, solver="CLARABEL")
                         predh = Kmat @ (A @ np.asarray(Xh, float)[0] + blv)
